@@ -11,6 +11,7 @@
   e559054).  The `…_before_repair` theorems pin the old behaviour as regression facts.
 -/
 import BioCantor.Proofs.AggMerged
+set_option autoImplicit false   -- an unresolved name in a statement must be an error, never a bound variable
 namespace BioCantor.Props.C20
 open BioCantor BioCantor.Spec BioCantor.Spec.Agg BioCantor.Model.Agg BioCantor.Proofs BioCantor.Proofs.Agg
 
